@@ -335,6 +335,25 @@ func C05(r *eng.Run) {
 			jobs = append(jobs, job{"T:" + K + ":" + tail, len(K) + len(tail)})
 		}
 	}
+	firstLeadJob := len(jobs)
+	// leading-digit prefixes (binary accumulator limits 2^64/10^j, 2^128/10^j and every 2- or 3-digit lead) at the lengths where the accumulators switch
+	var leads []string
+	for _, t := range []string{"1844", "1845", "18446", "18447", "185", "3402", "3403", "34028", "34029", "341", "345", "35", "3322", "3323", "333", "1297", "1298", "1299", "13", "2551", "2552", "256", "26", "0272", "028"} {
+		leads = append(leads, t)
+	}
+	nl := 2
+	if r.Thorough() {
+		nl = 3
+	}
+	for _, z := range LeadSweep(nl) {
+		leads = append(leads, z.String())
+	}
+	for _, ld := range leads {
+		for _, L := range []int{19, 20, 21, 37, 38, 39, 40, 41, 45} {
+			jobs = append(jobs, job{"T:" + ld + ":", L}, job{"T:" + ld + ":" + strings.Repeat("0", L-len(ld)-1) + "1", L})
+		}
+	}
+	r.Bounds["lead_prefixes"] = len(leads)
 	r.Bounds["digit_string_jobs"] = len(jobs)
 	r.Bounds["exponent_fields"] = len(expFields)
 	for drm := 0; drm < 6; drm++ {
@@ -352,6 +371,10 @@ func C05(r *eng.Run) {
 			}
 			zeros := []int{0, 1, 20, 40}
 			exps := expFields
+			leadJob := strings.HasPrefix(j.kind, "T:") && k >= firstLeadJob
+			if leadJob {
+				dots = []int{-1, 0, 1, j.L - 1, j.L}
+			}
 			signs := []string{"", "-", "+"}
 			if long {
 				zeros = []int{0, 3}
@@ -365,6 +388,14 @@ func C05(r *eng.Run) {
 			}
 			if drm > 0 && !long {
 				zeros = []int{0, 20}
+			}
+			if leadJob {
+				zeros = []int{0}
+				exps = []string{"", "e-30", "e6100", "e-6200"}
+				signs = []string{"", "-"}
+				if drm > 0 && drm != 3 {
+					return
+				}
 			}
 			for _, nz := range zeros {
 				for _, dot := range dots {
